@@ -106,15 +106,6 @@ theorem c01_chunked_missing_crlf_rejected (cfg : CkCfg) (s : CkSt) (d : Bytes) (
   simp only [ckFeed_cons, ckFeed_nil, ckStep]
   by_cases h1 : x = cr <;> by_cases h2 : y = lf <;> simp_all
 
-/-- An invalid chunk-size line (as judged by the line validator) is a 400. -/
-theorem c01_chunked_bad_size_line_rejected (cfg : CkCfg) (p : Bytes) (e : Nat) (out : Bytes) (ka : Bool)
-    (hlf : lf ∉ p) (hnul : (0 : UInt8) ∉ p) (hlen : p.length + 1 < 1024)
-    (hbad : ckParseLine (p ++ [lf]) = .error e) :
-    (ckFeed cfg { mode := .hdr [] false, out := out, ka := ka, after := 0 } (p ++ [lf])).mode = .err e ∧
-    (ckFeed cfg { mode := .hdr [] false, out := out, ka := ka, after := 0 } (p ++ [lf])).ka = false := by
-  rw [ckFeed_append, ckFeed_hdr_pre cfg p [] out ka 0 hlf hnul (by simp; omega)]
-  simp [ckFeed_cons, ckFeed_nil, ckStep, hbad]
-
 /-- **Chunk-size lines against the grammar (soundness).**  Whatever line the decoder accepts as a chunk-size
     line of value `n` is a `SizeLine`: `1*HEXDIG` of value `n`, optional whitespace, optionally `;` and an
     extension without control characters, CRLF, at most 1023 bytes -- `SizeLine` is stated without reference to
